@@ -74,8 +74,7 @@ theorem time_agrees (now : Int) (c : G.HistoricalClock) :
     Clock.HistoricalClock.time (toClock c) (scale now) = scale (Generated.Machines.HistoricalClock.time now c) := by
   rcases c with ⟨⟨e, l⟩⟩
   have hd : scale now - scale l = scale (now - l) := by unfold scale; omega
-  simp only [Clock.HistoricalClock.time, Generated.Machines.HistoricalClock.time, toClock, hd,
-    numMilliseconds_scale]
+  simp only [Clock.HistoricalClock.time, gen_clock, toClock, hd, numMilliseconds_scale]
   split <;> unfold scale <;> omega
 
 /-- `HistoricalClock::process`: the model's state transition at millisecond-aligned instants, for every
@@ -85,7 +84,7 @@ theorem process_agrees {Event : Type} [DecidableEq Event] (dict : G.TimeExchange
     (Clock.HistoricalClock.process (toClock c) ((dict.time_exchange ev).map scale) (scale now)).1
       = toClock (Generated.Machines.HistoricalClock.process dict now c ev) := by
   rcases c with ⟨⟨e, l⟩⟩
-  simp only [Clock.HistoricalClock.process, Generated.Machines.HistoricalClock.process, toClock]
+  simp only [Clock.HistoricalClock.process, gen_clock, toClock]
   cases dict.time_exchange ev with
   | none => rfl
   | some t =>
